@@ -75,12 +75,59 @@ func docHash(d *ld.RemoteDocument) string {
 	return hex.EncodeToString(s[:])
 }
 
-func newCacheRig(clock string) (*cacheRig, error) {
+// faultyEngine is a deliberately broken engine used only to demonstrate that
+// checkRecords is not vacuous (cfg "fault": "lost-set" | "torn" | "stale").
+type faultyEngine struct {
+	inner loaders.CacheEngine
+	fault string
+	n     int64
+	mu    sync.Mutex
+	first map[string]*ld.RemoteDocument
+	fexp  map[string]time.Time
+}
+
+func (f *faultyEngine) Get(key string) (*ld.RemoteDocument, time.Time, error) {
+	doc, exp, err := f.inner.Get(key)
+	if err != nil {
+		return doc, exp, err
+	}
+	switch f.fault {
+	case "torn":
+		if atomic.AddInt64(&f.n, 1)%50 == 0 {
+			exp = exp.Add(time.Nanosecond)
+		}
+	case "stale":
+		// remembers the first value seen per key and keeps serving it
+		f.mu.Lock()
+		defer f.mu.Unlock()
+		if d, ok := f.first[key]; ok {
+			return d, f.fexp[key], nil
+		}
+		f.first[key], f.fexp[key] = doc, exp
+	}
+	return doc, exp, err
+}
+
+func (f *faultyEngine) Set(key string, doc *ld.RemoteDocument, exp time.Time) error {
+	if f.fault == "lost-set" && atomic.AddInt64(&f.n, 1)%50 == 0 {
+		return nil
+	}
+	return f.inner.Set(key, doc, exp)
+}
+
+func newCacheRig(clock, fault string) (*cacheRig, error) {
 	raw := ctxload.New()
 	embURL := ctxload.URLCredentialsV1
 	eng, err := loaders.NewMemoryCacheEngine(loaders.WithEmbeddedDocumentBytes(embURL, raw.Raw(embURL)))
 	if err != nil {
 		return nil, err
+	}
+	switch fault {
+	case "":
+	case "lost-set", "torn", "stale":
+		eng = &faultyEngine{inner: eng, fault: fault, first: map[string]*ld.RemoteDocument{}, fexp: map[string]time.Time{}}
+	default:
+		return nil, fmt.Errorf("unknown fault %q", fault)
 	}
 	emb, _, err := eng.Get(embURL)
 	if err != nil || emb == nil {
@@ -314,7 +361,7 @@ func runCache(cfg *config, out *output) error {
 	if rounds == 0 {
 		rounds = 1
 	}
-	rig, err := newCacheRig(cfg.Clock)
+	rig, err := newCacheRig(cfg.Clock, cfg.Fault)
 	if err != nil {
 		return err
 	}
@@ -361,6 +408,9 @@ func runCache(cfg *config, out *output) error {
 	out.Distinct = countDistinct(all)
 	out.Distribution["keys"] = int64(len(keys))
 	out.Notes = append(out.Notes, "clock="+clockName(cfg.Clock), "embedded key: "+rig.embURL)
+	if cfg.Fault != "" {
+		out.Notes = append(out.Notes, "SELF-TEST: deliberately faulty engine wrapper \""+cfg.Fault+"\"")
+	}
 	return nil
 }
 
@@ -387,7 +437,7 @@ func runReplay(cfg *config, out *output) error {
 		// cross-thread pair of calls stays visible to the race detector
 		clock = "mono"
 	}
-	rig, err := newCacheRig(clock)
+	rig, err := newCacheRig(clock, cfg.Fault)
 	if err != nil {
 		return err
 	}
@@ -436,5 +486,8 @@ func runReplay(cfg *config, out *output) error {
 	out.Distribution["rounds"] = int64(rounds)
 	out.Distribution["threads"] = int64(n)
 	out.Notes = append(out.Notes, "clock="+clock, "embedded key: "+rig.embURL+" (alias \"@emb\")")
+	if cfg.Fault != "" {
+		out.Notes = append(out.Notes, "SELF-TEST: deliberately faulty engine wrapper \""+cfg.Fault+"\"")
+	}
 	return nil
 }
